@@ -335,7 +335,7 @@ type subst struct {
 	big  bool // too large for a correspondence case
 }
 
-var scalarPool = []string{"nan", ".nan", ".inf", "-.inf", "inf", "-0", "0x10", "0o17", "1e400", "1_000", "", "~", "true",
+var scalarPool = []string{"./x.yml@main", "./", "docker://", "owner/repo@", "nan", ".nan", ".inf", "-.inf", "inf", "-0", "0x10", "0o17", "1e400", "1_000", "", "~", "true",
 	"123456789012345678901234567890123456789012345678901234567890", "NaN", "0", "-1", "1.5", "${{ x }}", " ${{ x }} ", "${{ a }} ${{ b }}", "a b"}
 
 var tagPool = []string{"!!float", "!!int", "!!bool", "!!null", "!!str", "!!binary"}
